@@ -85,6 +85,17 @@ Definition plain_tokens (ts : list string) : bool := plain_toks (map B ts).
 Definition big_text (pieces : list (string * N)) : bytes :=
   flat_map (fun p => List.concat (List.repeat (B (fst p)) (N.to_nat (snd p)))) pieces.
 
+(* specification side: the deepest point of the bracket count of a text (the generated long inputs
+   never use a bracket as a value, so this is their nesting depth) *)
+Fixpoint text_nest (s : bytes) (cur best : N) : N :=
+  match s with
+  | [] => best
+  | c :: r =>
+    if inb c ["("; "["; "{"]%char then text_nest r (cur + 1)%N (N.max best (cur + 1))%N
+    else if inb c [")"; "]"; "}"]%char then text_nest r (N.pred cur) best
+    else text_nest r cur best
+  end.
+
 Inductive case :=
 | CText (gen : bool)                     (* grammar-generated condition rendered with random spellings *)
         (input : string)
@@ -170,4 +181,6 @@ Definition holds (c : case) : bool :=
         else true)
   | CBig raw pieces ntoks tok_ok cls pos canon_len ppanic prej =>
     negb ppanic && negb (Nat.eqb cls 3) && (if tok_ok then true else prej)
+    (* accepted (by the parser, or by the whole preparation) => nested at most 512 deep, whatever stands beside the groups *)
+    && (if Nat.eqb cls 0 || negb prej then (text_nest (big_text pieces) 0 0 <=? 512)%N else true)
   end.
